@@ -1,12 +1,64 @@
 (* C15 — notation does not change meaning.  Simplify.v models tree::simplify
    (the correspondence check compares its output, tree for tree, with the
-   implementation's); the theorems say its rewrite steps preserve the
-   specified meaning, and give the shape of its output.  Equalities hold "up
-   to the evaluator giving up" (DFuel: fuel or the event cap of the eager
-   specification evaluator). *)
-From Coq Require Import ZArith NArith List Bool.
-From Dwgrep Require Import Radix Value Words Tree Engine Build Den Simplify SimplifyProofs.
+   implementation's).  Main theorem: the whole simplifier - children first,
+   then promotion of CATs in CATs and ALTs in ALTs, of a CAT's only child, NOP
+   dropping, (FORMAT (STR)) -> (STR), applied to the program AND to the bodies
+   of its blocks - preserves the specified meaning (Den.v): whatever result
+   list the program as written evaluates to, the simplified program evaluates
+   to.  Further down: the single steps, "up to the evaluator giving up"
+   (DFuel: fuel or the event cap of the eager specification evaluator), and
+   the shape of the output. *)
+From Coq Require Import ZArith NArith List Bool String.
+From Dwgrep Require Import Radix Value Words Tree Engine Build Den Simplify SimplifyProofs DenMono SimplifyCorrect.
 Import ListNotations.
+Local Open Scope string_scope.
+
+(* ---- the whole simplifier ---- *)
+
+(* If the program as written (any sub-expression t of a program prog, whose
+   blocks live in prog) evaluates to a result list - complete, or ended by an
+   exception - then the simplified sub-expression, run against the simplified
+   program, evaluates to that same list whenever its evaluation finishes, with
+   any amount of fuel. *)
+Theorem C15_simplify_preserves : forall P prog f1 f2 t env stk evs ab,
+  den P prog f1 t env stk = DOk evs ab ->
+  den P (simplify prog) f2 (simplify t) env stk <> DFuel ->
+  den P (simplify prog) f2 (simplify t) env stk = DOk evs ab.
+Proof. exact simplify_preserves. Qed.
+Print Assumptions C15_simplify_preserves.
+
+(* in particular for the program itself on an input stack *)
+Corollary C15_simplified_program_same_results : forall P prog f1 f2 stk evs ab,
+  den P prog f1 prog [] stk = DOk evs ab ->
+  den P (simplify prog) f2 (simplify prog) [] stk <> DFuel ->
+  den P (simplify prog) f2 (simplify prog) [] stk = DOk evs ab.
+Proof. intros. apply (simplify_preserves P prog f1 f2 prog [] stk evs ab); assumption. Qed.
+Print Assumptions C15_simplified_program_same_results.
+
+(* the simplifier keeps every block, in order: looking one up in the simplified
+   program finds the simplified body *)
+Theorem C15_simplify_keeps_blocks : forall t id, find_block (simplify t) id = option_map simplify (find_block t id).
+Proof. exact find_block_simplify. Qed.
+Print Assumptions C15_simplify_keeps_blocks.
+
+(* non-vacuity: a program with nested CATs and ALTs, NOPs, a one-literal format
+   string and a block whose body needs simplifying too - the simplifier changes
+   it, and both versions evaluate (here: by computation) to the same three stacks *)
+Definition c15_prog : tree :=
+  TCat [TCat [TAlt [TConst 1 DDec; TAlt [TConst 2 DDec; TAlt [TConst 3 DDec]]]; TNop];
+        TFormat [TStr [120%N]];
+        TBlock 0 (TCat [TCat [TRead (nm "swap")]; TNop; TCat [TNop]]);
+        TRead (nm "apply")].
+
+Example C15_simplify_nonvacuous :
+  let tc := ValueM.mktc 2 3 4 5 [] in
+  let P := mkparams tc (fun _ => 1%N) in
+  simplify c15_prog <> c15_prog /\
+  den P c15_prog 20 c15_prog [] [] = den P (simplify c15_prog) 20 (simplify c15_prog) [] [] /\
+  match den P c15_prog 20 c15_prog [] [] with DOk evs false => List.length evs = 3%nat | _ => False end.
+Proof. vm_compute. split; [intro H; discriminate H|split; reflexivity]. Qed.
+
+(* ---- the single steps ---- *)
 
 (* "Promote CAT's only child" *)
 Theorem C15_cat_single : forall P prog f c env stk,
@@ -32,6 +84,34 @@ Theorem C15_flatten_no_nested_cat : forall f l,
   (forall c, In c l -> depth c <= f) -> Forall (fun c => is_cat c = false) (flatten_cat f l).
 Proof. exact flatten_cat_no_cat. Qed.
 Print Assumptions C15_flatten_no_nested_cat.
+
+(* ---- fuel is only a bound: the specification evaluator's answers do not depend on it ---- *)
+
+(* once an evaluation finishes, any larger amount of fuel gives the same answer *)
+Theorem C15_more_fuel_same_answer : forall P prog f g t env stk, (f <= g)%nat ->
+  den P prog f t env stk <> DFuel -> den P prog g t env stk = den P prog f t env stk.
+Proof. exact den_mono. Qed.
+Print Assumptions C15_more_fuel_same_answer.
+
+(* hence the rewrite steps hold for ANY two amounts of fuel: whenever the
+   program as written and the rewritten one both finish, they finish alike *)
+Theorem C15_cat_single_any_fuel : forall P prog c f1 f2 env stk,
+  sof (den P prog f1 (TCat [c]) env stk) (den P prog f2 c env stk).
+Proof. intros P prog c. apply (agree_any_fuel P prog (TCat [c]) c 1 0). intros f env stk. apply cat_single. Qed.
+Print Assumptions C15_cat_single_any_fuel.
+
+Theorem C15_cat_drop_nop_any_fuel : forall P prog l1 l2 f1 f2 env stk,
+  sof (den P prog f1 (TCat (l1 ++ TNop :: l2)) env stk) (den P prog f2 (TCat (l1 ++ l2)) env stk).
+Proof. intros P prog l1 l2. apply (agree_any_fuel P prog _ _ 2 2). intros f env stk. apply cat_drop_nop. Qed.
+Print Assumptions C15_cat_drop_nop_any_fuel.
+
+Theorem C15_format_single_str_any_fuel : forall P prog s f1 f2 env stk,
+  sof (den P prog f1 (TFormat [TStr s]) env stk) (den P prog f2 (TStr s) env stk).
+Proof.
+  intros P prog s. apply (agree_any_fuel P prog _ _ 2 1). intros f env stk.
+  right. right. apply format_single_str.
+Qed.
+Print Assumptions C15_format_single_str_any_fuel.
 
 (* non-vacuity: ((1) ()) "x" simplifies to (CAT (CONST 1) (STR x)) *)
 Example C15_nonvacuous :
